@@ -20,7 +20,8 @@ LEVEL_TEXT = ('Seeded histories (length <= 8, thorough <= 12) of every public Fr
               'trace counting/vmap/grad.'
               ' Further streams: struct.field metadata dicts shared between fields, Mapping-typed copy arguments, dicts'
               ' nested inside list / tuple values (known finding K4).'
-              ' Round e/f: pytree_protocol (K10), replace() with empty / several-field updates and frozen=False snapshots.')
+              ' Round e/f: pytree_protocol (K10), replace() with empty / several-field updates and frozen=False snapshots.'
+              ' Round g: dict subclasses nested in the sources.')
 LEVEL_NOTE = ('Non-dict leaves (lists, arrays) are opaque to FrozenDict by design and are never mutated by the probe; '
               'tree_unflatten(__unsafe_skip_copy__) on caller-supplied dict children is outside the listed APIs.')
 TECHNIQUE = 'runtime monitoring: icontract class invariant + history driver with aliasing (poison) probe; relational oracles for struct pytrees'
